@@ -8,8 +8,10 @@ import (
 	"context"
 	"errors"
 	"fmt"
+	"reflect"
 	"runtime"
 	"sort"
+	"strconv"
 	"strings"
 
 	apierrors "k8s.io/apimachinery/pkg/api/errors"
@@ -20,7 +22,9 @@ import (
 	"sigs.k8s.io/controller-runtime/pkg/client"
 
 	corev1alpha1 "package-operator.run/apis/core/v1alpha1"
+	manifestsv1alpha1 "package-operator.run/apis/manifests/v1alpha1"
 	"package-operator.run/internal/apis/manifests"
+	"package-operator.run/internal/constants"
 )
 
 // ---------------------------------------------------------------- scenario format
@@ -58,6 +62,9 @@ type Env struct {
 //	      Fault = "" | pull | env | pkgget | odget0 (controller's own Get) | odget (deployment reconciler)
 //	      | odcreate | odupdate | gc (ObjectSet list after the update) | odget2 (status sub-reconciler) | status
 //	      | loader (scripted structural loader error; deploy stream only)
+//	      | conflict<N> (N = 1, 2, ...: a third party writes the ObjectDeployment right before each of the
+//	        next N Update requests of the pass, so each of them is answered 409 Conflict by the optimistic
+//	        locking of the in-memory API; the third-party write adds one annotation and one label)
 type Op struct {
 	Op    string `json:"op"`
 	F     string `json:"f"`
@@ -71,10 +78,12 @@ type Scn struct {
 	Env   Env    `json:"env"`
 	Uniq  string `json:"uniq"`  // what listing packages with the manifest's label yields: 0 | 1 | 2 | err
 	Prior string `json:"prior"` // Invalid condition already in the status: "" | LoadError | ConstraintsFailed
-	Od    string `json:"od"`    // ObjectDeployment at the start: "" (absent) | empty | old
-	Pkgs  []Pkg  `json:"pkgs"`
-	Spec  []int  `json:"spec"` // initial spec: [image, config, component]
-	Ops   []Op   `json:"ops"`
+	// ObjectDeployment at the start: "" (absent) | empty (no phases, no metadata) | old (an old template, no
+	// metadata) | prev (old template + the annotations / labels of an earlier roll-out of image 0, config 1)
+	Od   string `json:"od"`
+	Pkgs []Pkg  `json:"pkgs"`
+	Spec []int  `json:"spec"` // initial spec: [image, config, component]
+	Ops  []Op   `json:"ops"`
 }
 
 // ---------------------------------------------------------------- real inputs
@@ -236,10 +245,59 @@ type Client struct {
 	OD      client.Object // stored ObjectDeployment / ClusterObjectDeployment
 	Uniq    string
 	Fault   string   // fault armed for the current pass (consumed by the first call it applies to)
-	Log     []string // OD write requests of the current pass: C, C!, U, U!
+	Log     []string // OD write requests of the current pass: C, C!, U, U! (error), U~ (answered 409 Conflict)
 	Lists   int      // package List calls (validateUnique)
 	rv      int
+	// third-party interleaving: number of upcoming ObjectDeployment Update requests a third party
+	// still gets in front of (armed by the fault "conflict<N>"), and third-party writes made so far.
+	conflicts int
+	tpn       int
 }
+
+// ConflictCount parses the fault "conflict<N>" (0 = not a conflict fault).
+func ConflictCount(fault string) int {
+	if !strings.HasPrefix(fault, "conflict") {
+		return 0
+	}
+	n, err := strconv.Atoi(strings.TrimPrefix(fault, "conflict"))
+	if err != nil || n < 0 {
+		return 0
+	}
+	return n
+}
+
+// nextRV is the resourceVersion the API hands out next: larger than everything handed out so far.
+func (c *Client) nextRV() string {
+	if c.OD != nil {
+		if n, err := strconv.Atoi(c.OD.GetResourceVersion()); err == nil && n > c.rv {
+			c.rv = n
+		}
+	}
+	c.rv++
+	return fmt.Sprint(c.rv)
+}
+
+// thirdPartyWrite is somebody else (a user, the ObjectDeployment controller, ...) writing the stored
+// ObjectDeployment: one more annotation, one more label, a new resourceVersion.  Template untouched.
+func (c *Client) thirdPartyWrite() {
+	c.tpn++
+	k := fmt.Sprintf("%s%d", ThirdPartyKeyPrefix, c.tpn)
+	ann := map[string]string{}
+	for a, b := range c.OD.GetAnnotations() {
+		ann[a] = b
+	}
+	ann[k] = "x"
+	c.OD.SetAnnotations(ann)
+	lab := map[string]string{}
+	for a, b := range c.OD.GetLabels() {
+		lab[a] = b
+	}
+	lab[k] = "x"
+	c.OD.SetLabels(lab)
+	c.OD.SetResourceVersion(c.nextRV())
+}
+
+const ThirdPartyKeyPrefix = "verif.example/tp"
 
 func callerHas(sub string) bool {
 	pcs := make([]uintptr, 32)
@@ -331,9 +389,8 @@ func (c *Client) Create(_ context.Context, obj client.Object, _ ...client.Create
 			c.Log = append(c.Log, "C!")
 			return apierrors.NewAlreadyExists(schema.GroupResource{}, obj.GetName())
 		}
-		c.rv++
 		obj.SetUID(types.UID("od-uid"))
-		obj.SetResourceVersion(fmt.Sprint(c.rv))
+		obj.SetResourceVersion(c.nextRV())
 		obj.SetGeneration(1)
 		c.OD = obj.DeepCopyObject().(client.Object)
 		c.Log = append(c.Log, "C")
@@ -353,8 +410,23 @@ func (c *Client) Update(_ context.Context, obj client.Object, _ ...client.Update
 			c.Log = append(c.Log, "U!")
 			return notFound(obj, client.ObjectKeyFromObject(obj))
 		}
-		c.rv++
-		obj.SetResourceVersion(fmt.Sprint(c.rv))
+		if n := ConflictCount(c.Fault); n > 0 {
+			c.Fault, c.conflicts = "", n
+		}
+		if c.conflicts > 0 {
+			// a third party gets in between the caller's last read and this write
+			c.conflicts--
+			c.thirdPartyWrite()
+		}
+		// optimistic locking, as the real API server does it: a write based on a stale
+		// resourceVersion is refused with 409 Conflict and changes nothing.
+		if rv := obj.GetResourceVersion(); rv != "" && rv != c.OD.GetResourceVersion() {
+			c.Log = append(c.Log, "U~")
+			return apierrors.NewConflict(
+				schema.GroupResource{Group: "package-operator.run", Resource: "objectdeployments"}, obj.GetName(),
+				errors.New("the object has been modified; please apply your changes to the latest version and try again"))
+		}
+		obj.SetResourceVersion(c.nextRV())
 		obj.SetGeneration(obj.GetGeneration() + 1)
 		c.OD = obj.DeepCopyObject().(client.Object)
 		c.Log = append(c.Log, "U")
@@ -461,6 +533,89 @@ func TemplateID(od client.Object) string {
 	return strings.Join(ids, "+")
 }
 
+// ConfigIndex inverts ConfigRaw on the value of the package-config annotation (-1 = unknown).
+func ConfigIndex(v string) int {
+	if v == "null" {
+		return 0
+	}
+	for i := 1; i <= 5; i++ {
+		if string(ConfigRaw(i).Raw) == v {
+			return i
+		}
+	}
+	return -1
+}
+
+func causeID(v string) string {
+	switch {
+	case strings.HasPrefix(v, "Installing ") && strings.HasSuffix(v, " package."):
+		return "inst"
+	case v == "Package source image changed.":
+		return "img"
+	case v == "Package config changed.":
+		return "cfg"
+	case v == "Package source image and config changed.":
+		return "img+cfg"
+	}
+	return "other"
+}
+
+func metaMapID(m map[string]string) string {
+	var out []string
+	for k, v := range m {
+		switch {
+		case k == manifestsv1alpha1.PackageSourceImageAnnotation:
+			out = append(out, fmt.Sprintf("img:%d", ImageIndex(v)))
+		case k == manifestsv1alpha1.PackageConfigAnnotation:
+			out = append(out, fmt.Sprintf("cfg:%d", ConfigIndex(v)))
+		case k == constants.ChangeCauseAnnotation:
+			out = append(out, "cc:"+causeID(v))
+		case k == manifestsv1alpha1.PackageLabel:
+			out = append(out, "pkg:"+strings.Map(idChar, v))
+		case k == manifestsv1alpha1.PackageInstanceLabel:
+			out = append(out, "inst:"+strings.Map(idChar, v))
+		case strings.HasPrefix(k, ThirdPartyKeyPrefix):
+			out = append(out, "tp"+strings.Map(idChar, strings.TrimPrefix(k, ThirdPartyKeyPrefix))+":"+strings.Map(idChar, v))
+		default:
+			out = append(out, "other:"+strings.Map(idChar, k))
+		}
+	}
+	if len(out) == 0 {
+		return "-"
+	}
+	sort.Strings(out)
+	return strings.Join(out, ",")
+}
+
+func idChar(r rune) rune {
+	if r >= 'a' && r <= 'z' || r >= 'A' && r <= 'Z' || r >= '0' && r <= '9' || r == '-' || r == '.' {
+		return r
+	}
+	return '_'
+}
+
+// MetaID describes annotations and labels of the ObjectDeployment stored in the fake API in the
+// abstract vocabulary of the model: img:<image index> cfg:<config index> cc:<inst|img|cfg|img+cfg>
+// tp<N>:x (third-party) for annotations, pkg:<manifest name> inst:<package name> tp<N>:x for labels.
+func MetaID(od client.Object) (ann, lab string) {
+	if od == nil || reflect.ValueOf(od).IsNil() {
+		return "-", "-"
+	}
+	return metaMapID(od.GetAnnotations()), metaMapID(od.GetLabels())
+}
+
+// PrevMeta is the metadata an earlier roll-out of image 0 with config 1 left on the ObjectDeployment.
+func PrevMeta() (ann, lab map[string]string) {
+	return map[string]string{
+			manifestsv1alpha1.PackageSourceImageAnnotation: ImageName(0),
+			manifestsv1alpha1.PackageConfigAnnotation:      string(ConfigRaw(1).Raw),
+			constants.ChangeCauseAnnotation:                "Installing pkg0 package.",
+		}, map[string]string{
+			manifestsv1alpha1.PackageLabel:         "pkg0",
+			manifestsv1alpha1.PackageInstanceLabel: "p",
+		}
+}
+
 // OldTemplate is the template of a pre-existing ObjectDeployment (Scn.Od == "old").
 func OldTemplate() corev1alpha1.ObjectSetTemplateSpec {
 	return corev1alpha1.ObjectSetTemplateSpec{Phases: []corev1alpha1.ObjectSetTemplatePhase{{
@@ -528,12 +683,13 @@ func RandomEnv(r Rng) Env {
 func randomCfg(r Rng) int  { return []int{0, 1, 1, 2, 2, 3, 4, 5}[r.Intn(8)] }
 func randomComp(r Rng) int { return []int{0, 0, 0, 1, 1, 2}[r.Intn(6)] }
 
-var ctrlFaults = []string{"pull", "pull", "pkgget", "odget0", "odget", "odcreate", "odupdate", "gc", "odget2", "status", "status", "env"}
-var deployFaults = []string{"loader", "odget", "odcreate", "odupdate", "gc"}
+var ctrlFaults = []string{"pull", "pull", "pkgget", "odget0", "odget", "odcreate", "odupdate", "gc", "odget2", "status", "status", "env",
+	"conflict1", "conflict2", "conflict4", "conflict5"}
+var deployFaults = []string{"loader", "odget", "odcreate", "odupdate", "gc", "conflict1", "conflict1", "conflict2", "conflict3", "conflict4", "conflict5", "conflict7"}
 
 func RandomScn(r Rng, mode string) Scn {
 	s := Scn{Mode: mode, Scope: pick(r, "ns", "ns", "cluster"), Env: RandomEnv(r),
-		Uniq: pick(r, "1", "1", "1", "1", "0", "2", "2", "err"), Od: pick(r, "", "", "old", "empty")}
+		Uniq: pick(r, "1", "1", "1", "1", "0", "2", "2", "err"), Od: pick(r, "", "", "old", "empty", "prev")}
 	np := 1 + r.Intn(3)
 	for i := 0; i < np; i++ {
 		s.Pkgs = append(s.Pkgs, RandomPkg(r))
